@@ -93,6 +93,11 @@ type node struct {
 	gSeg []int
 
 	lastVoting, lastCommitting tmconsensus.VersionedRoundView
+	lastVotingNet              tmconsensus.VersionedRoundView
+
+	// auto, when set, answers strategy calls at once (network harness) instead of blocking them.
+	auto    *lockStrategy
+	autoFin bool
 
 	trace []tev
 	calls []*stratCall
@@ -127,6 +132,13 @@ type hStrategy struct{ n *node }
 
 func (s hStrategy) wait(ctx context.Context, c *stratCall) stratAnswer {
 	n := s.n
+	if n.auto != nil {
+		n.calls = append(n.calls, c)
+		n.t("call", c.kind, c.h, c.r, "", fmt.Sprint(len(n.calls)-1))
+		a := n.auto.answer(n, c)
+		n.t("release", c.kind, c.h, c.r, a.hash, fmt.Sprint(a.err))
+		return a
+	}
 	c.resp = make(chan stratAnswer)
 	n.pending = c
 	n.calls = append(n.calls, c)
@@ -358,14 +370,18 @@ func (s nRoundStore) OverwriteRoundPrecommitProofs(ctx context.Context, h uint64
 
 // ---- construction ----
 
-func newNode(w *world, keyIdx int, name string) *node {
-	n := &node{w: w, keyIdx: keyIdx, name: name}
-	n.st = &nodeStores{
+func newNodeStores(w *world) *nodeStores {
+	return &nodeStores{
 		stores: *newStores(w),
 		as:     tmmemstore.NewActionStore(),
 		fs:     tmmemstore.NewFinalizationStore(),
 		ss:     tmmemstore.NewStateMachineStore(),
 	}
+}
+
+func newNode(w *world, keyIdx int, name string) *node {
+	n := &node{w: w, keyIdx: keyIdx, name: name}
+	n.st = newNodeStores(w)
 	n.start()
 	return n
 }
@@ -431,9 +447,12 @@ func (n *node) start() {
 	}()
 	synctest.Wait()
 	select {
-	case req := <-n.initCh:
-		req.Resp <- tmdriver.InitChainResponse{AppStateHash: []byte("app-0")}
-		synctest.Wait()
+	case req, ok := <-n.initCh:
+		// On a restart the engine closes the init chain channel instead of sending a request.
+		if ok {
+			req.Resp <- tmdriver.InitChainResponse{AppStateHash: []byte("app-0")}
+			synctest.Wait()
+		}
 	default:
 	}
 	if !done && n.startErr == "" {
@@ -511,6 +530,9 @@ func (n *node) drain() {
 		case req := <-n.finCh:
 			n.pendingFin = append(n.pendingFin, req)
 			n.t("fin-req", "", req.Header.Height, req.Round, string(req.Header.Hash), "")
+			if n.autoFin {
+				n.finalize()
+			}
 			any = true
 		default:
 		}
